@@ -138,3 +138,18 @@ package binary
 //@   loop 1 invariant stamped1: forall k in 0..len(out) :: out[k].T == in[k].T
 //@   loop 1 invariant[C18] step-vectors-own-their-buffers1: ownBuffers(out, len(out)) && sepBuffers(out, len(out)) &&
 //@       (forall k in 0..len(out) :: (ref(out[k].SampleIDs) != ref(step.SampleIDs) || ref(step.SampleIDs) == 0) && (ref(out[k].Samples) != ref(step.Samples) || ref(step.Samples) == 0))
+
+// buildOutputSeries (C05, C19): result labels of a matched pair (promql resultMetric): the many side's
+// labels; every label named by group_left/group_right is set to the one side's value, or removed when
+// the one side lacks it; the label set is produced by labels.Builder (sorted, no repeated names).
+//@ func buildOutputSeries
+//@   ensures[C05,C18] output-id: result.ID == seriesID
+//@   ensures[C05] without-included-labels-the-many-sides-labels: len(includeLabels) == 0 ==> sameslice(result.Metric, highCardSeries.Metric)
+//@   ensures[C05,C19] with-included-labels-built-by-the-label-builder: len(includeLabels) > 0 ==> ncalls("labels.(*Builder).Labels") == 1 && sameslice(result.Metric, callres("labels.(*Builder).Labels", 1))
+//@   at labels.NewBuilder assert[C05] starts-from-the-many-sides-labels: sameslice($base, highCardSeries.Metric)
+//@   at labels.(*Builder).Set assert[C05,C19] included-label-taken-from-the-one-side: $n == includeLabels[rangeindex] && $v == lowCardSeries.Metric.Get(includeLabels[rangeindex]) && $v != ""
+//@   at labels.(*Builder).Del assert[C05,C19] included-label-removed-when-the-one-side-lacks-it: len($ns) == 1 && $ns[0] == includeLabels[rangeindex] && lowCardSeries.Metric.Get(includeLabels[rangeindex]) == ""
+//@   ghostvar handled int = 0
+//@   after labels.(*Builder).Set set handled = handled + 1
+//@   after labels.(*Builder).Del set handled = handled + 1
+//@   loop 0 invariant[C05] every-included-label-is-handled: handled == rangeindex + 1 && lb != nil
